@@ -229,3 +229,67 @@ func nfaMatch(prog *syntax.Prog, s []*Term) *Term {
 	}
 	return matched
 }
+
+func init() {
+	reg("(*regexp.Regexp).FindSubmatchIndex", func(fr *frame, args []value) value {
+		h := hostRe(args[0])
+		key := bytesToTerms(args[1])
+		if bs, ok := concBytes(args[1]); ok {
+			m := h.re.FindSubmatchIndex(bs)
+			if m == nil {
+				return []value(nil)
+			}
+			r := make([]value, len(m))
+			for i, x := range m {
+				r[i] = mkI(x)
+			}
+			return r
+		}
+		// symbolic subject: the match bit is the NFA encoding; the indices are opaque
+		if !E.branch(regexMatch(h, key)) {
+			return []value(nil)
+		}
+		n := 2 * (h.re.NumSubexp() + 1)
+		r := make([]value, n)
+		for i := range r {
+			r[i] = opaqueIndex
+		}
+		return r
+	})
+	reg("(*regexp.Regexp).Expand", func(fr *frame, args []value) value {
+		h := hostRe(args[0])
+		dst, _ := args[1].([]value)
+		tmpl := args[2]
+		src := args[3]
+		match, _ := args[4].([]value)
+		concrete := true
+		for _, m := range match {
+			if m == value(opaqueIndex) {
+				concrete = false
+			}
+		}
+		if concrete {
+			d, ok1 := concBytes(dst)
+			t, ok2 := concBytes(tmpl)
+			s, ok3 := concBytes(src)
+			if ok1 && ok2 && ok3 {
+				mi := make([]int, len(match))
+				for i, m := range match {
+					mi[i] = int(m.(*Term).Int64())
+				}
+				return goBytesToSlice(h.re.Expand(d, t, s, mi))
+			}
+		}
+		// opaque expansion: an injective function of (template, subject)
+		out := append([]value(nil), dst...)
+		out = append(out, goBytesToSlice([]byte("<exp:"))...)
+		out = append(out, termsToSlice(bytesToTerms(tmpl))...)
+		out = append(out, byteConsts[':'])
+		out = append(out, termsToSlice(bytesToTerms(src))...)
+		out = append(out, byteConsts['>'])
+		return out
+	})
+	reg("(*regexp.Regexp).NumSubexp", func(fr *frame, args []value) value { return mkI(hostRe(args[0]).re.NumSubexp()) })
+}
+
+var opaqueIndex = Var("v_opaque_regex_index", BV(64))
